@@ -361,6 +361,13 @@ func (r *run) step(s drv.Step) (string, map[string]any) {
 			kb := e.KeyFor(v, chainB)
 			signedBy = crypto.PubkeyToAddress(kb.PublicKey).Hex()
 			sig = ethSign(bts, kb)
+		case "oldkey": // the key this validator had registered BEFORE its last re-registration, named as signer
+			k, _ := crypto.ToECDSA(crypto.Keccak256([]byte(fmt.Sprintf("verif-other-key-%d", a.V))))
+			if ks := r.keys[a.V]; len(ks) > 1 {
+				k = ks[len(ks)-2]
+				signedBy = crypto.PubkeyToAddress(k.PublicKey).Hex()
+			}
+			sig = ethSign(bts, k)
 		case "badkey":
 			k, _ := crypto.ToECDSA(crypto.Keccak256([]byte(fmt.Sprintf("verif-other-key-%d", a.V))))
 			sig = ethSign(bts, k)
@@ -368,11 +375,23 @@ func (r *run) step(s drv.Step) (string, map[string]any) {
 			sig = make([]byte, 65)
 			sig[3] = 9
 		}
-		return run(func(ctx sdk.Context) error {
+		res := run(func(ctx sdk.Context) error {
 			_, err := r.w.srv.AddMessagesSignatures(ctx, &ctypes.MsgAddMessagesSignatures{Metadata: meta(v.Acc),
 				SignedMessages: []*ctypes.ConsensusMessageSignature{{Id: uint64(a.ID), QueueTypeName: r.queueOf(a.ID), Signature: sig, SignedByAddress: signedBy}}})
 			return err
-		}), extra
+		})
+		// an accepted signature has to be under the key the validator has registered for this chain NOW (when it signed)
+		extra["regNow"] = true
+		if res == "ok" {
+			if m2 := r.getMsg(a.ID); m2 != nil {
+				for _, sd := range m2.GetSignData() {
+					if r.valIdx(sd.ValAddress) == a.V && common.BytesToAddress(sd.PublicKey) != crypto.PubkeyToAddress(r.curKey(a.V).PublicKey) {
+						extra["regNow"] = false
+					}
+				}
+			}
+		}
+		return res, extra
 	case "Estimate":
 		v := e.Vals[a.V-1]
 		return run(func(ctx sdk.Context) error {
